@@ -650,12 +650,20 @@ LoopMenu ==
       [k |-> "appclo", body |-> << [k |-> "ret", bare |-> FALSE, e |-> Var("i")] >>],
       [k |-> "asgidx", x |-> "i", form |-> "xfirst", a |-> Bin("add", Var("i"), Lit(1)), b |-> Var("i"), s |-> "", bare |-> FALSE],
       DPrint(Var("i")),
+      \* a variable DEFINED in the body (a new variable at every execution of the := statement, whatever makes
+      \* the body execute again: a loop clause or a backward goto), captured by a closure that is called after the loop
+      Blk(<< [k |-> "def", x |-> "y", e |-> Bin("add", Var("i"), Lit(10))],
+             [k |-> "appclo", body |-> << [k |-> "ret", bare |-> FALSE, e |-> Var("y")] >>] >>),
+      Blk(<< [k |-> "def", x |-> "y", e |-> Bin("add", Var("i"), Lit(20))],
+             [k |-> "appclo", body |-> << [k |-> "inc", x |-> "y", d |-> 1], [k |-> "ret", bare |-> FALSE, e |-> Var("y")] >>],
+             [k |-> "opasg", x |-> "y", op |-> "add", e |-> Lit(5)] >>),
       [k |-> "cont", lab |-> ""] }
-FamLoopKinds == {"for", "rng", "rngarr"}
+FamLoopKinds == {"for", "rng", "rngarr", "gloop"}
 MkLoop(kd, body) ==
     CASE kd = "for"    -> [k |-> "for", v |-> "i", n |-> 3, lab |-> "", body |-> body]
       [] kd = "rng"    -> [k |-> "rng", v |-> "i", n |-> 3, lab |-> "", body |-> body]
       [] kd = "rngarr" -> [k |-> "rngarr", s |-> "", v |-> "i", vv |-> "vi", lab |-> "", body |-> body]
+      [] kd = "gloop"  -> [k |-> "gloop", lab |-> "B", x |-> "i", n |-> 2, body |-> body]    \* i := 0; B: { body }; if i < 2 { i++; goto B }
 LoopFamily ==
     { WProg("", <<>>, << [k |-> "mkfs"], MkLoop(kd, <<b[1], b[2]>>), [k |-> "callall"], [k |-> "printg"] >>) :
         kd \in FamLoopKinds, b \in [1..2 -> LoopMenu] }
